@@ -1,5 +1,11 @@
 import GufoSnmp.Driver.Codec
 import GufoSnmp.Model.Policer
+import GufoSnmp.Model.Socket
+import GufoSnmp.Model.PyClient
+import GufoSnmp.Model.Crypto.Md5
+import GufoSnmp.Model.Crypto.Sha1
+import GufoSnmp.Model.Crypto.Des
+import GufoSnmp.Model.Crypto.Aes
 /-! `gsvmodel`: the Lean model behind the line protocol of harness/PROTOCOL.md. -/
 namespace GufoSnmp.Driver
 open GufoSnmp Gen
@@ -197,6 +203,37 @@ def cmdPolicer (delta : Int) (tss : List Int) : String :=
   let (_, acc) := tss.foldl step (⟨none, delta⟩, [])
   if acc.isEmpty then "ok -" else "ok " ++ ",".intercalate acc.reverse
 
+/-- executable instances of the abstract primitives -/
+def digests : Digests := ⟨Crypto.md5, Crypto.sha1⟩
+def ciphers : Ciphers := ⟨Crypto.desEncryptBlock, Crypto.desDecryptBlock, Crypto.aesEncryptBlock⟩
+
+def parseAlgName (s : String) : Option AuthAlg :=
+  if s = "md5" then some .md5 else if s = "sha1" then some .sha1 else none
+
+def exceptOut (r : Except PyExc Bytes) : String :=
+  match r with
+  | .ok b => s!"pyok {hex b}"
+  | .error e => s!"pyerr {e.name}"
+
+def cmdPrivEnc (alg : Nat) (key : Bytes) (boots time count : Nat) (eng : Bytes) (pdu : Pdu) (seed : Nat) : String :=
+  match PrivKey.new alg with
+  | .err e => s!"err {e.name}"
+  | .panic _ => "PANIC"
+  | .ok k0 =>
+    match k0.asLocalized key seed with
+    | .err e => s!"err {e.name}"
+    | .panic _ => "PANIC"
+    | .ok k1 =>
+      let rec go (k : PrivKey) (n : Nat) (acc : List String) : String :=
+        match n with
+        | 0 => if acc.isEmpty then "ok -" else "ok " ++ ";".intercalate acc.reverse
+        | n + 1 =>
+          match k.encrypt ciphers ⟨eng, pdu⟩ boots time with
+          | (k', .ok (ct, salt)) => go k' n (s!"{hex ct}/{hex salt}" :: acc)
+          | (_, .err e) => s!"err {e.name}"
+          | (_, .panic _) => "PANIC"
+      go k1 count []
+
 def handle (line : String) : String :=
   let line := if line.endsWith "\r" then (line.dropEnd 1).toString else line
   if line.trimAscii.toString.isEmpty || line.startsWith "#" then "#" else
@@ -253,6 +290,53 @@ def handle (line : String) : String :=
   | ["cmparcs", a, b] => withHex a (fun a => withHex b (fun b =>
       s!"ok {match cmpArcs a b with | .lt => "lt" | .eq => "eq" | .gt => "gt"}"))
   | ["buf", ops] => cmdBuf ops
+  | ["p2m", a, pw] =>
+    match parseAlgName a, parseHex pw with
+    | some a, some pw => renderOutcome hex (passwordToMaster digests a pw a.keySize)
+    | _, _ => bad
+  | ["localize", a, k, e] =>
+    match parseAlgName a, parseHex k, parseHex e with
+    | some a, some k, some e => renderOutcome hex (localize digests a k e a.keySize)
+    | _, _, _ => bad
+  | ["keytype", c, k, e] =>
+    match parseNat c, parseHex k, parseHex e with
+    | some c, some k, some e =>
+      if c ≥ 256 then bad else
+      renderOutcome (fun (ak : AuthKey) => hex ak.getKey) (AuthKey.new c >>= fun ak => asKeyType digests ak c k e)
+    | _, _, _ => bad
+  | ["sign", a, k, off, d] =>
+    match parseAlgName a, parseHex k, parseNat off, parseHex d with
+    | some a, some k, some off, some d =>
+      renderOutcome hex (asLocalized a k >>= fun ak => sign digests ak d off)
+    | _, _, _, _ => bad
+  | ["getkey", c, pw] =>
+    match parseNat c, parseHex pw with
+    | some c, some pw => if c ≥ 256 then bad else exceptOut (getMasterKey digests c pw)
+    | _, _ => bad
+  | ["getlkey", c, k, e] =>
+    match parseNat c, parseHex k, parseHex e with
+    | some c, some k, some e => if c ≥ 256 then bad else exceptOut (getLocalizedKey digests c k e)
+    | _, _, _ => bad
+  | "privenc" :: alg :: key :: boots :: time :: count :: eng :: seedAndReq =>
+    -- the model needs the salt seed (random in the implementation): `seed=N` precedes REQ
+    match seedAndReq with
+    | seed :: req =>
+      match parseNat alg, parseHex key, parseNat boots, parseNat time, parseNat count, parseHex eng,
+            parseNat ((seed.drop 5).toString), parseReq req with
+      | some alg, some key, some boots, some time, some count, some eng, some sd, some pdu =>
+        if seed.startsWith "seed=" && reqInRange pdu && alg < 256 && boots < 2 ^ 32 && time < 2 ^ 32 then
+          cmdPrivEnc alg key boots time count eng pdu sd
+        else bad
+      | _, _, _, _, _, _, _, _ => bad
+    | _ => bad
+  | ["privdec", alg, key, boots, time, pp, data] =>
+    match parseNat alg, parseHex key, parseNat boots, parseNat time, parseHex pp, parseHex data with
+    | some alg, some key, some boots, some time, some pp, some data =>
+      if alg ≥ 256 || boots ≥ 2 ^ 32 || time ≥ 2 ^ 32 then bad else
+      renderOutcome (fun (r : ScopedPdu × PrivKey) => s!"{hex r.1.engineId} {renderPdu r.1.pdu}")
+        (PrivKey.new alg >>= fun k0 => k0.asLocalized key 0 >>= fun k1 =>
+          k1.decrypt ciphers data ⟨[], boots, time, [], [], pp⟩)
+    | _, _, _, _, _, _ => bad
   | ["policer", d, tss] =>
     match parseInt d, parseList parseInt tss with
     | some d, some tss => cmdPolicer d tss
